@@ -80,6 +80,16 @@ func (s *session) stop() {
 	for _, c := range s.clients {
 		c.close()
 	}
+	// let the broker finish tearing the connections down before stopping it (Server.Stop racing a
+	// connection teardown stops a queue twice: panic, close of closed channel)
+	dl := time.Now().Add(3 * time.Second)
+	for time.Now().Before(dl) {
+		sn, ok := s.snapshot(false)
+		if !ok || (len(sn.Connections) == 0 && sn.Inflight == 0 && sn.Pending == 0) {
+			break
+		}
+		time.Sleep(200 * time.Microsecond)
+	}
 	done := make(chan struct{})
 	go func() { s.srv.Stop(); close(done) }()
 	select {
